@@ -563,6 +563,15 @@ func c01LaneA(c *Ctx, root *Rng, n int) []*c01Case {
 		case 3:
 			base, label = c01DeepNesting(r)
 		case 4:
+			if r.Bool() {
+				// identifiers of 100-300 bytes (fixed-size buffers of matchers and formatters), in every naming position
+				nm := func(p string) string { return p + strings.Repeat(r.Pick([]string{"a", "Ab", "x_", "long"}), r.Range(40, 120)) }
+				l1, g1, m1, p1 := nm("handleLocal"), nm("HandleGlobal"), nm("handleMember"), nm("handleParam")
+				base = fmt.Sprintf("local %s = 1\nfunction %s(%s)\n  return %s + %s\nend\nlocal T = { %s = 2 }\nfunction T.%s(a) return a end\nprint(%s, %s(1), T.%s, T.%s(3))\n",
+					l1, g1, p1, p1, l1, m1, m1+"Fn", l1, g1, m1, m1+"Fn")
+				label = "long-identifiers"
+				break
+			}
 			base = strings.Repeat("local a = 1 ", 4000) // one long line (~48 KB)
 			label = "long-line"
 		case 5:
@@ -607,6 +616,12 @@ func c01LaneA(c *Ctx, root *Rng, n int) []*c01Case {
 			maxPos = 12
 		}
 		cs.Steps = c01Sweep(r, "m.lua", wire, maxPos, c01PosMethods)
+		// workspace/symbol with queries that match names of the file: prefixes of a few of its identifiers
+		for _, tk := range RLex([]byte(wire)).Toks {
+			if tk.K == TName && len(tk.Val) >= 3 && r.Chance(1, 12) {
+				cs.Steps = append(cs.Steps, c01Step{Method: "workspace/symbol", Params: map[string]interface{}{"query": tk.Val[:r.Range(2, min(len(tk.Val), 8))]}, Req: true})
+			}
+		}
 		cases = append(cases, cs)
 	}
 	return cases
